@@ -173,7 +173,70 @@ func genInput(seed uint64) snapInput {
 	cx := size + 2 + int64(r.Uint64()%uint64(cells-2*size-4))
 	cy := size + 2 + int64(r.Uint64()%uint64(cells-2*size-4))
 	var rings [][][2]int64
-	switch x := r.Intn(24); {
+	x := r.Intn(26)
+	if x >= 24 && !r.Chance(0.2) {
+		x = r.Intn(9) // (the two expensive shapes: well under one input in a hundred each)
+	}
+	switch {
+	case x == 24:
+		// two large blobs joined by a neck narrower than a pixel, each with a grid of small
+		// holes: an outer ring that splits in two and dozens of inner rings to hand out
+		in.Shape = "dumbbell-many-holes"
+		blob := pixL * int64(6+r.Intn(7))
+		neckW := maxI64(1, pixL/8+int64(r.Intn(int(pixL/2)+1)))
+		neckL := maxI64(2, pixL+int64(r.Intn(int(3*pixL)+1)))
+		x0, y0 := cx-blob-neckL/2, cy-blob/2
+		if x0 < 2 {
+			x0 = 2
+		}
+		if y0 < 2 {
+			y0 = 2
+		}
+		mid := y0 + blob/2
+		rings = append(rings, dedupe([][2]int64{
+			{x0, y0}, {x0 + blob, y0}, {x0 + blob, mid - neckW/2},
+			{x0 + blob + neckL, mid - neckW/2}, {x0 + blob + neckL, y0}, {x0 + 2*blob + neckL, y0},
+			{x0 + 2*blob + neckL, y0 + blob}, {x0 + blob + neckL, y0 + blob}, {x0 + blob + neckL, mid - neckW/2 + neckW},
+			{x0 + blob, mid - neckW/2 + neckW}, {x0 + blob, y0 + blob}, {x0, y0 + blob},
+		}))
+		hs := maxI64(2, pixL*int64(8+r.Intn(8))/10)
+		step := hs + maxI64(2, pixL)
+		for _, bx := range []int64{x0, x0 + blob + neckL} {
+			for hx := bx + step/2; hx+hs < bx+blob-1; hx += step {
+				for hy := y0 + step/2; hy+hs < y0+blob-1; hy += step {
+					if len(rings) > 70 || r.Chance(0.15) {
+						continue
+					}
+					rings = append(rings, [][2]int64{{hx, hy}, {hx, hy + hs}, {hx + hs, hy + hs}, {hx + hs, hy}}) // clockwise
+				}
+			}
+		}
+		in.Valid = true
+	case x == 25:
+		// a ring of many hundreds of vertices (work done in blocks, buffers that grow)
+		in.Shape = "star-of-many-vertices"
+		nv := 300 + r.Intn(900)
+		big := int64(nv) * 4 / 6 // vertices about half a pixel of the deepest level apart
+		if r.Chance(0.5) {
+			big = int64(nv) * 72 / 6 // ... or about nine pixels apart
+		}
+		if big > cells/4 {
+			big = cells / 4
+		}
+		if cx < big+2 {
+			cx = big + 2
+		}
+		if cy < big+2 {
+			cy = big + 2
+		}
+		if cx > cells-big-2 {
+			cx = cells - big - 2
+		}
+		if cy > cells-big-2 {
+			cy = cells - big - 2
+		}
+		rings = append(rings, star(r, cx, cy, big*9/10+1, big, nv))
+		in.Valid = true
 	case x >= 20 && x < 22:
 		// several thin V-shaped holes whose tips meet in one pixel: many rings pass through the
 		// same pixel more than once
@@ -201,7 +264,7 @@ func genInput(seed uint64) snapInput {
 			rings = append(rings, hole)
 		}
 		in.Valid = true
-	case x >= 22:
+	case x >= 22 && x < 24:
 		// a moat: a ring-shaped hole with a narrow bridge to the island inside it, which has
 		// holes of its own; when the bridge closes on the grid the island becomes a polygon
 		// nested in the hole of the outer one
@@ -303,11 +366,28 @@ func genInput(seed uint64) snapInput {
 		}
 		in.Valid = false
 	}
+	if r.Chance(0.04) {
+		// the same id twice in the list (the library works per level, whatever the list looks like)
+		k := r.Intn(len(in.IDs))
+		at := r.Intn(len(in.IDs) + 1)
+		ids := append([]int(nil), in.IDs[:at]...)
+		ids = append(ids, in.IDs[k])
+		in.IDs = append(ids, in.IDs[at:]...)
+	}
 	// a ring may start at any of its vertices
 	for ri := range rings {
 		if n := len(rings[ri]); n > 1 && r.Chance(0.5) {
 			k := r.Intn(n)
 			rings[ri] = append(append([][2]int64(nil), rings[ri][k:]...), rings[ri][:k]...)
+		}
+	}
+	if in.Shape == "star-of-many-vertices" && r.Chance(0.7) {
+		// a pair of vertices a hair's breadth apart where the count of vertices is round
+		// (work done in blocks of 256, 512, 1024 meets its seams there)
+		for _, at := range []int{255, 256, 511, 512, 1023, 1024} {
+			if at < len(rings[0]) && r.Chance(0.5) {
+				in.Twins = append(in.Twins, twin{R: 0, V: at, Eps: float64(1+r.Intn(9)) * math.Pow(10, -float64(2+r.Intn(6)))})
+			}
 		}
 	}
 	if r.Chance(0.06) {
@@ -866,6 +946,75 @@ func withReversedRings(in *snapInput) [][][2]float64 {
 	return rings
 }
 
+// withReversedRotatedRings: the opposite direction, starting at another vertex: the same
+// first vertex (how a closed ring is usually reversed) or some other one.
+func withReversedRotatedRings(in *snapInput) [][][2]float64 {
+	rings := withReversedRings(in)
+	for k, i := range in.RevRings {
+		if i < len(rings) {
+			if n := len(rings[i]); n > 1 {
+				rot := []int{n - 1, n/3 + 1}[(k+len(in.Rings[0]))%2] % n
+				rings[i] = append(append([][2]float64(nil), rings[i][rot:]...), rings[i][:rot]...)
+			}
+		}
+	}
+	return rings
+}
+
+// samePolygonSets: per tile matrix the same polygons, whatever their order in the list,
+// the order of their holes and the vertex their rings start with.
+func samePolygonSets(a, b result) bool {
+	if a.panicked != b.panicked || len(a.byID) != len(b.byID) {
+		return false
+	}
+	ringKey := func(r [][2]float64) string {
+		if len(r) == 0 {
+			return "()"
+		}
+		m := 0
+		for i := range r {
+			if r[i][0] < r[m][0] || (r[i][0] == r[m][0] && r[i][1] < r[m][1]) {
+				m = i
+			}
+		}
+		best := ""
+		for i := range r { // several vertices may be equal to the smallest: take the smallest rotation
+			if r[i] != r[m] {
+				continue
+			}
+			k := fmt.Sprint(append(append([][2]float64(nil), r[i:]...), r[:i]...))
+			if best == "" || k < best {
+				best = k
+			}
+		}
+		return best
+	}
+	polyKeys := func(ps []geom.Polygon) []string {
+		var out []string
+		for _, p := range ps {
+			if len(p) == 0 {
+				out = append(out, "empty")
+				continue
+			}
+			var holes []string
+			for _, h := range p[1:] {
+				holes = append(holes, ringKey(h))
+			}
+			sort.Strings(holes)
+			out = append(out, ringKey(p[0])+"|"+strings.Join(holes, "|"))
+		}
+		sort.Strings(out)
+		return out
+	}
+	for id, pa := range a.byID {
+		pb, ok := b.byID[id]
+		if !ok || strings.Join(polyKeys(pa), ";") != strings.Join(polyKeys(pb), ";") {
+			return false
+		}
+	}
+	return true
+}
+
 type evalStats struct {
 	calls         int
 	effective     uint64
@@ -883,6 +1032,7 @@ func evaluate(in *snapInput, seed uint64, nOrders int, fixed *orderSpec) (*simh.
 	st := evalStats{perSite: map[string]uint64{}, probes: simh.Counter{}}
 	r := simrt.NewRNG(seed, "snapsim-orders")
 	simrt.SetMapOrder(simrt.MapSorted, 0)
+	clock0 := simrt.ClockReads()
 	r0 := call(in, in.IDs, in.Rings, in.Reverse)
 	st.calls++
 	c0 := canon(r0)
@@ -945,6 +1095,22 @@ func evaluate(in *snapInput, seed uint64, nOrders int, fixed *orderSpec) (*simh.
 				"the same call returns different geometry after an unrelated call (tms %s ids %v) was made in between: first %s ; then %s", other.TMS, other.IDs, describe(r0), describe(r5))}, nil, "history", st
 		}
 	}
+	if simrt.ClockReads() > clock0 {
+		// oracle 7: the snapping code reads the clock (a time budget, a seed, a tie-break): with
+		// the clock frozen and with a clock that races ahead the answer must be the same
+		for _, mode := range []int{1, 2} {
+			simrt.SetClock(mode)
+			r7 := call(in, in.IDs, in.Rings, in.Reverse)
+			simrt.SetClock(0)
+			st.calls++
+			st.probes.Inc("oracle7-clock-independence")
+			if canon(r7) != c0 {
+				simrt.SetMapOrder(simrt.MapNative, 0)
+				return &simh.Violation{Class: "determinism/clock", Message: fmt.Sprintf(
+					"same polygon, same settings, different result when the clock the code reads %s: %s ; under the real clock %s", map[int]string{1: "stands still", 2: "races ahead (37 ms per reading)"}[mode], describe(r7), describe(r0))}, nil, "clock", st
+			}
+		}
+	}
 	if schedOn && !r0.panicked {
 		// oracle 6: goroutines inside the snapping code, under three seeded schedules
 		for k := uint64(1); k <= 3; k++ {
@@ -974,6 +1140,20 @@ func evaluate(in *snapInput, seed uint64, nOrders int, fixed *orderSpec) (*simh.
 		}
 		if canon(r3) != c0 {
 			st.probes.Inc("oracle3-differs-by-ring-rotation-only")
+		}
+		// ... and in the opposite direction starting at another vertex: a PROBE, not an oracle.
+		// C07 speaks about direction (the repository's own tests mirror the vertex list), not
+		// about the vertex a ring starts with, and in the pinned tree the result does depend on
+		// it: with keep-points-and-lines the ring [A B C D] and the same ring written
+		// [A D C B] can differ by a line remnant (synthetic:6, id 2, ring (2177 5762) (2166 5752)
+		// (2144 5768) (2129 5651) in lattice units). Counted on a sample, never reported.
+		if seed%16 == 0 {
+			r3b := call(in, in.IDs, withReversedRotatedRings(in), in.Reverse)
+			st.calls++
+			st.probes.Inc("probe:opposite-direction-from-another-start-vertex")
+			if !samePolygonSets(r0, r3b) {
+				st.probes.Inc("probe:opposite-direction-from-another-start-vertex:other-polygons(keep=" + strconv.FormatBool(in.Keep) + ")")
+			}
 		}
 		// oracle 4: reverse-winding flag flipped
 		r4 := call(in, in.IDs, in.Rings, !in.Reverse)
